@@ -61,11 +61,15 @@ pub struct Yielding {
     every: u64,
     ctl: Arc<Ctl>,
     id: usize,
+    /// where a clone of this reader starts: 0 = where the original is (like a Cursor), 1 = at the start
+    /// (like a reader that reopens its file), 2 = at the end
+    clone_pos: u8,
 }
 impl Clone for Yielding {
     fn clone(&self) -> Yielding {
         let id = self.ctl.next_id.fetch_add(1, std::sync::atomic::Ordering::SeqCst);
-        Yielding { data: self.data.clone(), pos: self.pos, rng: self.rng ^ (id as u64).wrapping_mul(0x9E3779B97F4A7C15), every: self.every, ctl: self.ctl.clone(), id }
+        let pos = match self.clone_pos { 1 => 0, 2 => self.data.len() as u64, _ => self.pos };
+        Yielding { clone_pos: self.clone_pos, data: self.data.clone(), pos, rng: self.rng ^ (id as u64).wrapping_mul(0x9E3779B97F4A7C15), every: self.every, ctl: self.ctl.clone(), id }
     }
 }
 impl Yielding {
@@ -291,7 +295,8 @@ pub fn run(sc: &Value) -> Vec<Value> {
     let nh = sc["handles"].as_u64().unwrap_or(2) as usize;
     let every = sc.get("yield_every").and_then(|x| x.as_u64()).unwrap_or(0);
     let ctl = Ctl::new();
-    let base = ZipArchive::new(Yielding { data: Arc::new(bytes.clone()), pos: 0, rng: 0x9E3779B97F4A7C15, every, ctl: ctl.clone(), id: 0 });
+    let clone_pos = sc.get("clone_pos").and_then(|x| x.as_u64()).unwrap_or(0) as u8;
+    let base = ZipArchive::new(Yielding { data: Arc::new(bytes.clone()), pos: 0, rng: 0x9E3779B97F4A7C15, every, ctl: ctl.clone(), id: 0, clone_pos });
     let mut m = Map::new();
     m.insert("ev".into(), json!("CStart"));
     m.insert("L".into(), l);
@@ -341,6 +346,21 @@ pub fn run(sc: &Value) -> Vec<Value> {
                         }
                     });
                     ctl.arm(first_id + h, hook["at"].as_u64().unwrap_or(0), false, Some(act));
+                }
+                if st["op"].as_str() == Some("clone_from") {
+                    // handle h is replaced by a clone of handle g's archive taken NOW (whatever g has done so far)
+                    let g = st["g"].as_u64().unwrap_or(0) as usize % nh;
+                    let hs2: &mut Vec<Handle> = unsafe { &mut *hsp };
+                    hs2[h].file = None;
+                    let c: ZipArchive<Yielding> = (*hs2[g].ar).clone();
+                    hs2[h] = Handle { ar: Box::leak(Box::new(c)), file: None };
+                    let mut m = Map::new();
+                    m.insert("ev".into(), json!("CClone"));
+                    m.insert("h".into(), json!(h + 1));
+                    m.insert("g".into(), json!(g + 1));
+                    m.insert("r".into(), json!("ok"));
+                    evs.push(m);
+                    continue;
                 }
                 let e = step(unsafe { &mut (&mut *hsp)[h] }, h, &st);
                 ctl.disarm();
